@@ -165,7 +165,7 @@ func (g *gemExtension) init(input string) error {
 		elements = append(elements, gemElement{str: str})
 	}
 	// Trim trailing zeros.
-	for i := len(elements) - 1; i >= 0 && elements[i].str == "0"; i-- {
+	for i := len(elements) - 1; i >= 0 && strings.Trim(elements[i].str, "0") == ""; i-- { // 0, 00, ...
 		elements = elements[:i]
 	}
 	// Integers for numbers.
